@@ -631,6 +631,16 @@ theorem c15_refused_cleanup_witness : ¬ c15_same_session_full c17Cfg := by
   revert this
   decide
 
+/-- the same defect on an EMPTY record (`CloseSession(own id)` finds `remaining == 0` and terminates after releasing
+the lock): a refused first connection (cap 0) decides to terminate, the admin raises the cap, sibling B creates its
+session in the record, the termination destroys it; C is sent to a new record -/
+theorem c15_refused_cleanup_witness_empty : ¬ c15_same_session_full c17Cfg := by
+  intro h
+  have := h [.put 7 { info2 with cap := 0 }, .getUser 7 false 10, .getSession 0 5 1 10, .refusedCleanup 0 5, .put 7 info2]
+    [.retire 0, .closeAll 0, .deleteRec 0] 0 5 2 3 10 10 2 (by decide) (by decide)
+  revert this
+  decide
+
 /-- why the repaired helper retires the record in the SAME critical section in which it finds it empty: without that
 (`cleanupRetires = false`) a refused first connection (cap 0) decides to terminate the empty record, the admin raises
 the cap, a sibling creates its session in the still unretired record, the termination then closes it -/
